@@ -246,7 +246,7 @@ def drive(check, tier, seed, workers=None, budget_s=None):
             unknown.append((sig, vs))
     per_entry = collections.OrderedDict()
     for sig, (e, n) in known_seen.items():
-        key = e.get('signature') or e.get('signature_glob')
+        key = e.get('signature') or e.get('signature_glob') or ' | '.join(e.get('signature_globs') or [])
         ent = per_entry.setdefault(key, [e, 0, []])
         ent[1] += n
         ent[2].append(sig)
